@@ -182,6 +182,20 @@ add(property='C19', id='C19-polarization-json', status='fixed', commit='f97803c'
     what='fixed: property=C19 f97803c Optic.to_dict embedded the PolarizationState object: lens not JSON serialisable',
     reproducer={'spec': _c19_spec, 'ex': _ex(polar='L+45'), 'rays': _c19_rays, 'wl': 0})
 
+add(property='C13', id='C13-caller-arrays', status='fixed', commit='7e803d3', clause='caller_arrays_unmodified',
+    what='fixed: property=C13 7e803d3 trace_generic scaled the caller\'s Px/Py arrays in place when the field has '
+         'vignetting factors',
+    reproducer={'spec': spec([surf(R=40.0, t=5.0, mat=glass(1.6), stop=True), surf(R=-60.0, t=50.0)], ap=('EPD', 8.0),
+                             fields=(0.0, 3.0)), 'polar': None,
+                'calls': [{'call': 'trace_generic_array', 'a': 1, 'b': 1, 'h': 1.0, 'px': 0.8, 'py': 0.5},
+                          {'call': 'paraxial', 'a': 0, 'b': 0, 'h': 0.0, 'px': 0.0, 'py': 0.0},
+                          {'call': 'spot', 'a': 0, 'b': 0, 'h': 0.0, 'px': 0.0, 'py': 0.0},
+                          {'call': 'trace', 'a': 0, 'b': 1, 'h': 0.5, 'px': 0.0, 'py': 0.0}], 'repeat': [0]})
+
+for _e in F:
+    if _e['id'] == 'C13-caller-arrays':
+        _e['reproducer']['spec']['fields'][1].update(vx=0.2, vy=0.3)
+
 if __name__ == '__main__':
     json.dump({'findings': F}, open(os.path.join(HERE, 'known_findings.json'), 'w'), indent=1)
     print(len(F), 'findings written')
